@@ -74,6 +74,20 @@ def check_case(ctx, L, case, faults_map=None):
     else:
         # acceptance of well-formed inputs is C01's business; here only accepted inputs are in the domain
         ctx.count("strict:not-accepted")
+    # near misses: extra bytes behind the input or inside a sized region (all size fields adjusted).  Strict mode
+    # normally rejects them; whatever it accepts is in the domain and has to re-encode to exactly those bytes.
+    if len(case.data) <= 600 and obs.outcome["kind"] == "ok":
+        from ..refdec import ref_decode
+
+        variants = [(case.data + sfx, "suffix") for sfx in faults.SUFFIXES[: 3 if ctx.quick() else 6]]
+        variants += list(faults.consistent_insertions(L, case, ref_decode(L, case.type, case.data, command_code=case.cc, enc=case.enc)))[:8]
+        for data3, label in variants:
+            O.reset_state()
+            obs3 = O.run_decode(case.type, data3, command_code=case.cc, enc=case.enc, strict=True)
+            ctx.count(f"near-miss:{'accepted' if obs3.outcome['kind'] == 'ok' else 'rejected'}")
+            if obs3.outcome["kind"] == "ok":
+                ctx.case(("n", case.type, case.cc, case.enc, data3), True)
+                roundtrip(ctx, L, f"{case.type} ({label})", data3, obs3, dict(payload, data=data3), "strict")
     if faults_map:
         data2 = faults.patch(L, case, faults_map)
         payload2 = dict(payload, data=data2)
